@@ -183,6 +183,15 @@ class LinkPair:
         return dict(k="stream", bufs=[list(b) for b in bufs], rets=rets, exc=exc, ask_no_ack=bool(ask_no_ack),
                     air=self._air_since(n0))
 
+    def queue_only(self, n):
+        """n payloads loaded with write(write_only=True) while CE is low and left there (nothing is transmitted)"""
+        n0 = len(self.air.log)
+        rets = []
+        self.tx.ce_pin = False
+        for i in range(n):
+            rets.append(bool(self.tx.write(bytes([0xD0 + i, 0x11, i]), write_only=True)))
+        return dict(k="queue", n=n, rets=rets, air=self._air_since(n0))
+
     def txread(self):
         """the transmitting side reads whatever its RX FIFO holds (ACK payloads left there by send_only calls)"""
         n0 = len(self.air.log)
